@@ -42,9 +42,10 @@ FLOATS = {0.0: "(c0 F)", 1.0: "(c1 F)", 1e-8: "c_1e_8"}
 OBJ = {
     "md": {"_ps": ("list:F", "md_ps F"), "_shape": ("list:Z", "md_shape F"), "_eps_zero": ("F", "md_eps_zero F"), "_is_zero_dist": ("bool", "md_is_zero_dist F")},
     "ens": {"_states": ("list:St", "ens_states"), "_prob_dist": ("md", "ens_prob_dist"), "_eps_zero": ("F", "ens_eps_zero")},
+    "pd": {"_ps": ("list:F", "pd_ps F"), "_shape": ("opt:list:Z", "pd_shape F")},
     "mp": {"_shape": ("list:Z", "mp_shape F"), "_eps_zero": ("F", "mp_eps_zero F"), "_mode_sampling": ("bool", "mp_mode_sampling F")},
 }
-CLASS_TAG = {"MultinomialDistribution": "md", "StateEnsemble": "ens", "MProcess": "mp"}
+CLASS_TAG = {"MultinomialDistribution": "md", "StateEnsemble": "ens", "MProcess": "mp", "ProbDist": "pd"}
 MK = {"md": "mk_md F", "ens": "mk_ens"}
 # classes whose read-only properties are used although none of their methods is translated: (file, class)
 EXTRA_CLASSES = [("quara/objects/mprocess.py", "MProcess")]
@@ -64,6 +65,8 @@ FUNCS = [
     dict(key="md.conditionalize", file="quara/objects/multinomial_distribution.py", cls="MultinomialDistribution", name="conditionalize", coq="gen_md_conditionalize",
          params=[("conditional_variable_indices", "list:Z"), ("conditional_variable_values", "list:Z")], ret="md", self="md",
          locals={"ix_args": "list:list:bool"}),
+    dict(key="pd.__getitem__", file="quara/objects/prob_dist.py", cls="ProbDist", name="__getitem__", coq="gen_pd_getitem",
+         params=[("idx", "idx")], ret="nd", self="pd"),
     dict(key="ens.state", file="quara/objects/state_ensemble.py", cls="StateEnsemble", name="state", coq="gen_ens_state",
          params=[("outcome", "idx")], ret="St", self="ens"),
     dict(key="StateEnsemble", file="quara/objects/state_ensemble.py", cls="StateEnsemble", name="__init__", coq="gen_ens_init",
@@ -91,6 +94,8 @@ def coq_type(t):
         return "(ensemble F St)"
     if t == "mp":
         return "(mproc F)"
+    if t == "pd":
+        return "(probdist F)"
     if t == "nd":
         return "(ndarray F)"
     if t == "idx":
@@ -186,6 +191,8 @@ class Fn:
             if self.ctor:
                 key = "self." + a
                 return self.lookup(env, key, e)
+            if ("self." + a) in getattr(self, "attr_refined", {}):
+                return self.attr_refined["self." + a]
             t, proj = OBJ[tag][a]
             return "(%s v_self)" % proj, t
         inner = self.attr_chain(e.value, env)
@@ -297,6 +304,10 @@ class Fn:
         if isinstance(e, ast.Subscript):
             a, ta = self.expr(e.value, env, binds)
             i, ti = self.expr(e.slice, env, binds)
+            if ta == "nd" and ti == "Z":
+                t = self.tmp()
+                binds.append((t, "(nd_getitem F %s %s)" % (a, i)))
+                return t, "nd"
             if ta == "nd" and ti == "ix":
                 return "(nd_ix_select F %s %s)" % (a, i), "nd"
             if ta == "list:Z" and ti == "list:bool":
@@ -423,6 +434,14 @@ class Fn:
             t = self.tmp()
             binds.append((t, "(py_reduce_mul %s)" % a))
             return t, "Z"
+        if isinstance(e.func, ast.Attribute) and e.func.attr == "reshape" and len(e.args) == 1 and not kws and isinstance(e.args[0], ast.Starred):
+            a, ta = self.expr(e.func.value, env, binds)
+            s_, ts = self.expr(e.args[0].value, env, binds)
+            if ta == "list:F" and ts == "list:Z" and self.selftag == "pd":
+                t = self.tmp()
+                binds.append((t, "(nd_reshape_chk F %s %s)" % (a, s_)))      # no invariant behind a ProbDist: the size check is modelled
+                return t, "nd"
+            fail(e, "reshape(*%s) of %s" % (ts, ta))
         if isinstance(e.func, ast.Attribute) and e.func.attr == "reshape" and len(e.args) == 1 and not kws:
             a, ta = self.expr(e.func.value, env, binds)
             s, ts = self.expr(e.args[0], env, binds)
@@ -610,9 +629,13 @@ class Fn:
                 fail(s, "bare return")
             binds = []
             v, t = self.expr(s.value, env, binds)
+            if t == "F" and self.ret == "nd":
+                v, t = "(nd_scalar F %s)" % v, "nd"          # a scalar is the 0-d array
             if t != self.ret:
                 fail(s, "returns %s, expected %s" % (t, self.ret))
             return self.wrap(binds, "PRet %s" % v)
+        if isinstance(s, ast.Raise) and s.cause is None and isinstance(s.exc, ast.Name) and s.exc.id in ("ValueError", "TypeError", "IndexError", "KeyError"):
+            return 'PRaise "%s"%%string' % s.exc.id          # raise <builtin exception class>
         if isinstance(s, ast.Raise):
             if s.cause is not None or not isinstance(s.exc, ast.Call) or not isinstance(s.exc.func, ast.Name) or s.exc.keywords or len(s.exc.args) != 1:
                 fail(s, "raise must be `raise Name(<message>)`")
@@ -846,6 +869,21 @@ class Fn:
             old = env[x][0]
             env2 = dict(env); env2[x] = (self.coqname(x) + "'", pay)
             return "let %s := (match %s with None => %s | Some x_ => x_ end) in\n  %s" % (env2[x][0], old, d, cont(env2))
+        # (3b) if self._attr is None: <raise / return>      (no else): the rest sees the payload of the attribute
+        if isinstance(s.test, ast.Compare) and len(s.test.ops) == 1 and isinstance(s.test.ops[0], ast.Is) and isinstance(s.test.comparators[0], ast.Constant) \
+                and s.test.comparators[0].value is None and isinstance(s.test.left, ast.Attribute) and not s.orelse and self.terminates(list(s.body)) and self.selftag:
+            ch = self.attr_chain(s.test.left, env)
+            key = self.target_key(s.test.left)
+            if ch is None or not ch[1].startswith("opt:") or key is None:
+                fail(s, "None test on an attribute")
+            nm = self.coqname(key) + "'"
+            a_txt = self.block(list(s.body), env, lambda e_: fail(s, "fallthrough"), inner)
+            self.attr_refined = dict(getattr(self, "attr_refined", {}))
+            saved = dict(self.attr_refined)
+            self.attr_refined[key] = (nm, ch[1][4:])
+            b_txt = cont(env)
+            self.attr_refined = saved
+            return "(match %s with None =>\n  %s\n  | Some %s =>\n  %s end)" % (ch[0], a_txt, nm, b_txt)
         # (4) if x is None: A else: B      (x optional; B sees the payload)
         refine = None
         if isinstance(s.test, ast.Compare) and len(s.test.ops) == 1 and isinstance(s.test.ops[0], (ast.Eq, ast.Is)) and isinstance(s.test.left, ast.Name) \
@@ -1172,6 +1210,7 @@ NEED = {
                                                   "index_serial_from_index_multi_dimensional": "quara.utils.index_util.index_serial_from_index_multi_dimensional"},
     "quara/objects/operators.py": {"np": "numpy", "MProcess": "quara.objects.mprocess.MProcess", "StateEnsemble": "quara.objects.state_ensemble.StateEnsemble",
                                    "MultinomialDistribution": "quara.objects.multinomial_distribution.MultinomialDistribution"},
+    "quara/objects/prob_dist.py": {"np": "numpy"},
     "quara/objects/state_ensemble.py": {"index_serial_from_index_multi_dimensional": "quara.utils.index_util.index_serial_from_index_multi_dimensional",
                                         "MultinomialDistribution": "quara.objects.multinomial_distribution.MultinomialDistribution"},
 }
